@@ -114,6 +114,25 @@ func (a matJointIt) key() string {
 }
 func (a matJointIt) clone() anyIter { return matJointIt{a.it.CloneJointIterator()} }
 
+type vecMagicIt struct{ it ad.VectorMagicIterator }
+
+func (a vecMagicIt) Ok() bool { return a.it.Ok() }
+func (a vecMagicIt) Next()    { a.it.Next() }
+func (a vecMagicIt) key() string {
+	return fmt.Sprintf("%d:%s", a.it.Index(), readCell(a.it.GetMagic()))
+}
+func (a vecMagicIt) clone() anyIter { return vecMagicIt{a.it.CloneMagicIterator()} }
+
+type matMagicIt struct{ it ad.MatrixMagicIterator }
+
+func (a matMagicIt) Ok() bool { return a.it.Ok() }
+func (a matMagicIt) Next()    { a.it.Next() }
+func (a matMagicIt) key() string {
+	i, j := a.it.Index()
+	return fmt.Sprintf("%d,%d:%s", i, j, readCell(a.it.GetMagic()))
+}
+func (a matMagicIt) clone() anyIter { return matMagicIt{a.it.CloneMagicIterator()} }
+
 func RunIteratorClones(c *core.Ctx) {
 	t := c.Tape
 	e := pickType(t)
@@ -124,7 +143,46 @@ func RunIteratorClones(c *core.Ctx) {
 		n := t.Range(1, 9)
 		v := mkVector(e, sparse, intVals(t, n))
 		o := mkVector(e, sparseOp, intVals(t, n))
-		switch t.Choose(4) {
+		switch t.Choose(8) {
+		case 4:
+			kind = "Vector.MagicIterator"
+			if mv, ok := v.(ad.MagicVector); ok {
+				mk = func() anyIter { return vecMagicIt{mv.MagicIterator()} }
+			} else {
+				kind = "Vector.ConstIterator"
+				mk = func() anyIter { return vecConstIt{v.ConstIterator()} }
+			}
+		case 5, 6:
+			// a read-only sparse vector holding the same elements
+			idx, val := []int{}, []float64{}
+			for i := 0; i < n; i++ {
+				if x := v.Float64At(i); x != 0 {
+					idx, val = append(idx, i), append(val, x)
+				}
+			}
+			cv := newSparseConst(t.Choose(7), idx, val, n)
+			if t.Bool(1, 2) {
+				kind = "SparseConstVector.ConstIterator"
+				mk = func() anyIter { return vecConstIt{cv.ConstIterator()} }
+			} else {
+				kind = "SparseConstVector.ConstJointIterator"
+				mk = func() anyIter { return vecConstJointIt{cv.ConstJointIterator(o)} }
+			}
+		case 7:
+			// the gradient of a scalar seen as a vector
+			s := ad.NewReal64(1)
+			s.Alloc(n, 1)
+			for i := 0; i < n; i++ {
+				s.SetDerivative(i, v.Float64At(i))
+			}
+			g := ad.DenseGradient{S: s}
+			if t.Bool(1, 2) {
+				kind = "DenseGradient.ConstIterator"
+				mk = func() anyIter { return vecConstIt{g.ConstIterator()} }
+			} else {
+				kind = "DenseGradient.ConstJointIterator"
+				mk = func() anyIter { return vecConstJointIt{g.ConstJointIterator(o)} }
+			}
 		case 0:
 			kind = "Vector.ConstIterator"
 			mk = func() anyIter { return vecConstIt{v.ConstIterator()} }
@@ -143,7 +201,15 @@ func RunIteratorClones(c *core.Ctx) {
 		R, C := t.Range(1, 4), t.Range(1, 4)
 		m := mkMatrix(e, sparse, R, C, intVals(t, R*C))
 		o := mkMatrix(e, sparseOp, R, C, intVals(t, R*C))
-		switch t.Choose(3) {
+		switch t.Choose(4) {
+		case 3:
+			kind = "Matrix.MagicIterator"
+			if mm, ok := m.(ad.MagicMatrix); ok {
+				mk = func() anyIter { return matMagicIt{mm.MagicIterator()} }
+			} else {
+				kind = "Matrix.ConstIterator"
+				mk = func() anyIter { return matConstIt{m.ConstIterator()} }
+			}
 		case 0:
 			kind = "Matrix.ConstIterator"
 			mk = func() anyIter { return matConstIt{m.ConstIterator()} }
